@@ -16,6 +16,9 @@
         `if not self.built: self.build(var_name=..., use_variables=self.use_variables)` prologue
         of every `__call__`.
 
+  Fix round: `update_qnoise_factor(<tf.Variable>)` on a python-float factor follows the repaired
+  code (`K.get_value`) — see `QState.updateFromVar`.
+
   Numbers are exact rationals.  The float32 / float64 roundings the real code performs are
   explicit: every model function that rounds takes the rounding(s) as a parameter (`Rnd`), the
   driver instantiates them with `rnd32` / `rnd64` below (IEEE-754 round-to-nearest-even, no
@@ -124,13 +127,15 @@ def QState.update (rd : Rnd) (s : QState) (v : Rat) : QState :=
   | .py _ => { s with store := .py v }
 
 /-- `update_qnoise_factor(w)` with `w` a `tf.Variable` holding `v`:
-    Variable store → `assign`; python store → `qnoise_factor.eval()`, which raises under eager
-    execution (`RuntimeError`/`NotImplementedError`), leaving the quantizer unchanged.
-    Returns the new state and whether the call raised. -/
+    Variable store → `assign`; python store → the attribute is rebound to `K.get_value(w)`, the
+    numpy float32 value of the variable.  (Before the fix of finding C07-update-from-variable this
+    branch called `w.eval()`, which raises under eager execution and left the factor unchanged.)
+    Returns the new state and whether the call raised (never; kept so that the protocol still
+    reports a raise should one come back). -/
 def QState.updateFromVar (s : QState) (v : Rat) : QState × Bool :=
   match s.store with
   | .var _ => ({ s with store := .var v }, false)
-  | .py _ => (s, true)
+  | .py _ => ({ s with store := .py v }, false)
 
 /-- the prologue of every `__call__`: `if not self.built: self.build(..., use_variables=self.use_variables)` -/
 def QState.call (rd : Rnd) (s : QState) : QState :=
@@ -144,7 +149,7 @@ inductive Op where
   | call
 deriving Repr, DecidableEq, Inhabited
 
-/-- one operation; second component = the operation raised (state unchanged then) -/
+/-- one operation; second component = the operation raised (no operation does any more) -/
 def QState.step (rd : Rnd) (s : QState) : Op → QState × Bool
   | .build b => (s.build rd b, false)
   | .update v => (s.update rd v, false)
